@@ -59,6 +59,8 @@ func c12Check(o *Oracle, c histCase) (ok bool, kind, detail string) {
 	executed := false
 	_ = executed
 	var lastClosed1 clip.Paths64
+	var hist64Tree *clip.PolyTree64
+	var histDTree *clip.PolyTreeD
 	adds2paths := func(as []added) clip.Paths64 {
 		var out clip.Paths64
 		for _, a := range as {
@@ -107,7 +109,11 @@ func c12Check(o *Oracle, c histCase) (ok bool, kind, detail string) {
 				var got, want string
 				switch {
 				case op.Op == "tree" && !isD:
-					t1, t2 := clip.NewPolyTree64(), clip.NewPolyTree64()
+					// the history's engine keeps writing into one tree object, the fresh engine gets a fresh tree
+					if hist64Tree == nil {
+						hist64Tree = clip.NewPolyTree64()
+					}
+					t1, t2 := hist64Tree, clip.NewPolyTree64()
 					o1, o2 := clip.PathsD{{{X: 1, Y: 1}}}, clip.PathsD{}
 					e64.ExecutePolyTree64(ct, fr, t1, &o1)
 					f64.ExecutePolyTree64(ct, fr, t2, &o2)
@@ -116,7 +122,10 @@ func c12Check(o *Oracle, c histCase) (ok bool, kind, detail string) {
 					treeDump(t2.PolyPathBase, 1, &b)
 					got, want = fmt.Sprint(a, len(o1)), fmt.Sprint(b, len(o2))
 				case op.Op == "tree" && isD:
-					t1, t2 := clip.NewPolyTreeD(), clip.NewPolyTreeD()
+					if histDTree == nil {
+						histDTree = clip.NewPolyTreeD()
+					}
+					t1, t2 := histDTree, clip.NewPolyTreeD()
 					o1, o2 := clip.PathsD{{{X: 1, Y: 1}}}, clip.PathsD{}
 					eD.ExecutePolyTreeD(ct, fr, t1, &o1)
 					fD.ExecutePolyTreeD(ct, fr, t2, &o2)
@@ -314,7 +323,7 @@ func genHistory(r *Rng) histCase {
 
 func init() {
 	stages["c12-search"] = func(ctx *Ctx, cnt func(q, t int) int, replay string) Result {
-		col := NewCollector("C12", "search", "random histories (2-10 operations) of AddPaths / Execute / ExecuteOC / ExecutePolyTree with changing clip types and fill rules, pre-filled solution arguments and open paths on clipper64 and clipperD, and AddPaths / Execute64 with changing deltas on ClipperOffset; every execution's result is compared exactly with that of a fresh object given the same paths in one call per path class; deep copies of every input are compared after each call, and every path-level library call is checked for input immutability (including writes by the caller into returned slices); non-trivial = a history with ≥ 2 executions; distinct by history")
+		col := NewCollector("C12", "search", "random histories (2-10 operations) of AddPaths / Execute / ExecuteOC / ExecutePolyTree with changing clip types and fill rules, pre-filled solution arguments (the history's engine writes every tree result into one and the same tree object) and open paths on clipper64 and clipperD, and AddPaths / Execute64 with changing deltas on ClipperOffset; every execution's result is compared exactly with that of a fresh object given the same paths in one call per path class; deep copies of every input are compared after each call, and every path-level library call is checked for input immutability (including writes by the caller into returned slices); non-trivial = a history with ≥ 2 executions; distinct by history")
 		parallelFor(ctx, cnt(40000, 400000), true, col, func(o *Oracle, i int) {
 			r := NewRng(ctx.Seed, "c12", i)
 			if i%10 == 9 {
